@@ -1,0 +1,14 @@
+//go:build verif
+
+package circularbuffer
+
+// VerifRing returns a copy of the ring and its cursors. Read-only accessor for the verification harness (C15).
+func (queue *Queue[E]) VerifRing() (values []E, start, end int, full bool, size int, maxSize int) {
+	values = make([]E, len(queue.values))
+	copy(values, queue.values)
+	return values, queue.start, queue.end, queue.full, queue.size, queue.maxSize
+}
+
+func (s *QueueSafe[E]) VerifRing() (values []E, start, end int, full bool, size int, maxSize int) {
+	return s.unsafe.VerifRing()
+}
